@@ -160,8 +160,16 @@ def substitute_stmt(stmt, mapping):
     return Sub().visit(clone(stmt))
 
 
-def inline_call_expr(call, find_method):
-    """value of `self.<helper>(args)` when the helper is a single `return <expr>`: that expr with params substituted"""
+def inline_call_expr(call, find_method, find_function=None):
+    """value of `self.<helper>(args)` (or of a package-level `helper(args)`) when the helper is a single
+    `return <expr>`: that expr with params substituted"""
+    if isinstance(call, ast.Call) and isinstance(call.func, ast.Name) and find_function is not None:
+        h = find_function(call.func.id)
+        if h is not None:
+            body = [b for b in h.body if not (isinstance(b, ast.Expr) and isinstance(b.value, ast.Constant))]
+            if len(body) == 1 and isinstance(body[0], ast.Return) and body[0].value is not None:
+                return substitute(body[0].value, _bind_call(h, call))
+        return None
     if isinstance(call, ast.Call) and isinstance(call.func, ast.Attribute) and isinstance(call.func.value, ast.Name) \
             and call.func.value.id == "self":
         h = find_method(call.func.attr)
@@ -296,15 +304,20 @@ def nodes_through_helpers(fn, find_method=None, depth=3, _seen=(), want=None, _m
         return r
 
     out = []
-    for c in ast.walk(fn):
+
+    def dfs(c):
+        # source order: a node, then its children; a helper's body is visited where it is called
         out.append(c)
+        for ch in ast.iter_child_nodes(c):
+            dfs(ch)
         if depth > 0 and isinstance(c, ast.Call):
             h = _helper_of_call(c, find_method, find_function)
             if h is not None and h.name not in _seen and h.name != getattr(fn, "name", None):
                 if want is not None and not has_wanted(h, depth - 1, _seen + (h.name,)):
-                    continue
-                out += nodes_through_helpers(helper_view(h, c), find_method, depth - 1, _seen + (h.name,), want, memo,
-                                             find_function)
+                    return
+                out.extend(nodes_through_helpers(helper_view(h, c), find_method, depth - 1, _seen + (h.name,), want, memo,
+                                                 find_function))
+    dfs(fn)
     return out
 
 
@@ -623,4 +636,17 @@ def callee_texts(call, fn):
             todo.append(m[f.id])
         else:
             out.add(norm(f))
+    return out
+
+
+def source_order(fn):
+    """{id(node): rank} in source (depth-first, pre-order) order — line numbers cannot order inlined statements, which
+    all carry the line of the call they replace"""
+    out = {}
+
+    def visit(n):
+        out[id(n)] = len(out)
+        for ch in ast.iter_child_nodes(n):
+            visit(ch)
+    visit(fn)
     return out
